@@ -552,4 +552,7 @@ SUBCHECKS = [
     SubCheck("C13.ts_immutable", run_ts, strategy=ts_case, quick=2500, thorough=75000, classify=classify_ts,
              rule="a history that wrote into >=1 writeable array obtained from the tree sequence",
              floors={"wrote_any": 0.3, "readonly_refused": 0.3}),
+    SubCheck("C13.large_history", run_history, strategy=T.large_history_case, quick=16, thorough=600, shards=16,
+             classify=classify_history, max_shrink_runs=(30, 200),
+             rule=NT_A + ", in a history whose second step grows the table past 2^16 rows", floors={"burst>=65534": 0.9}),
 ]
